@@ -392,6 +392,13 @@ func (g *generator) walkNumber(schema *schemaparser.Schema) (ast.Type, error) {
 			Args: []any{value},
 		})
 	}
+	if schema.MultipleOf != nil {
+		value, _ := schema.MultipleOf.Float64()
+		def.Scalar.Constraints = append(def.Scalar.Constraints, ast.TypeConstraint{
+			Op:   ast.MultipleOfOp,
+			Args: []any{value},
+		})
+	}
 
 	return def, nil
 }
